@@ -82,7 +82,9 @@ fn private_is_dirty(
         );
     }
 
-    if f.failed_runid.is_some() {
+    // A failed_runid of 0 is written when a vanished target is converted back
+    // to a source (below); it does not mean that a build failed.
+    if f.failed_runid.map_or(false, |runid| runid != 0) {
         log_debug!("{}-- DIRTY (failed last time)\n", depth);
         return Ok(Dirtiness::Dirty);
     }
